@@ -52,6 +52,17 @@ let run (id : string) (ops : string list) (out : out_channel) =
       let (o, l1) = udp_serialize l0 (bytes_of_hex p) (fcd.[0] = '1') (fcd.[1] = '1') (ph_of ph) (junk_of d) in
       let outb = match o with Base.Ok b -> hex_of_bytes b | _ -> "" in
       emit (Printf.sprintf "cls=%s;out=%s;%s" (cls_of o) outb (fields l1))
+    | "bigser", [n; seed; fcd; ph] ->
+      let n = int_of_string n in
+      let payload = lcg n (int_of_string seed) in
+      let l0 = { u_contents = []; u_payload = []; u_sport = z_of_int 0x1234; u_dport = z_of_int 53;
+                 u_length = z_of_int ((n + 8) land 0xFFFF); u_csum = z_of_int 0; u_sp = []; u_dp = [] } in
+      let d = Char.code fcd.[2] - 48 in
+      let (o, l1) = udp_serialize l0 payload (fcd.[0] = '1') (fcd.[1] = '1') (ph_of ph) (junk_of d) in
+      let (hdr, outlen) = match o with
+        | Base.Ok b -> (hex_of_bytes (Stdlib.List.filteri (fun i _ -> i < 8) b), Stdlib.List.length b)
+        | _ -> ("", 0) in
+      emit (Printf.sprintf "cls=%s;hdr=%s;outlen=%d;%s" (cls_of o) hdr outlen (fields l1))
     | ("rt" | "big"), [x; y; ph] ->
       let (data, payload) = if name = "rt" then (bytes_of_hex x, bytes_of_hex y)
         else (bytes_of_hex "1234003500080000", lcg (int_of_string x) (int_of_string y)) in
